@@ -255,17 +255,21 @@ def epsilon_keys(ctx):
         lp = 'locals'
         L = ('name', lp)
         found = {}
+        eb = T.Builder()
         for st in g.node.body:
             if isinstance(st, ast.Assign):
                 for tg in st.targets:
                     if isinstance(tg, ast.Subscript) and isinstance(tg.value, ast.Name) and tg.value.id == lp and isinstance(tg.slice, ast.Constant):
-                        found[tg.slice.value] = (st, T.simp(T.term(st.value)), [x.id for x in st.targets if isinstance(x, ast.Name)])
+                        # (a temporary that holds the value first is looked through)
+                        found[tg.slice.value] = (st, T.simp(eb.t(st.value)), [x.id for x in st.targets if isinstance(x, ast.Name)])
+                if all(isinstance(tg, ast.Name) for tg in st.targets) and len(st.targets) == 1 and st.targets[0].id != lp:
+                    eb.exec_stmt(st)
         for key in ('tol', 'rel'):
             ctx.need(key in found, '%s no longer stores locals[%r]' % (name, key))
             st, v, names = found[key]
             want = ('ifexp', ('cmp', 'in', ('const', key), L), ('sub', L, ('const', key)), T.simp(T.term(ast.parse('1e-15', mode='eval').body)))
             ctx.stats['terms_compared'] += 1
-            ctx.check(v == want and names in ([], [key]), '%s#%s' % (name, key), "locals[%r] = the caller's %r, default 1e-15 (bound to the local `%s`)" % (key, key, key),
+            ctx.check(v == want, '%s#%s' % (name, key), "locals[%r] = the caller's %r, default 1e-15 (bound to the local `%s`)" % (key, key, key),
                       '%s takes its %r from %s (bound to %s): the strictness margin of the generated function is not the one the caller gave under %r'
                       % (name, key, T.show(v)[:80], names, key), g, st)
 
